@@ -84,7 +84,7 @@ def _rederive_hw(build, make_observer, cfg, trace, only, got):
 
 
 def explore_hw(build, make_observer, cfg, tier, seed, *, only=None, max_states=1_500_000,
-               max_seconds=240.0, max_depth=None, conf_frac=None, conf_cap=None, on_edge=None,
+               max_seconds=1500.0, max_depth=None, conf_frac=None, conf_cap=None, on_edge=None,
                post=None, expect_support=None, pass_hw=False):
     t0 = time.time()
     h, early = build_or_classify(build, cfg)
